@@ -203,39 +203,55 @@ class Property:
         from hypothesis import strategies as st
 
         plain = self._plain_strategy(tier)
-        pair = st.fixed_dictionaries({"__prelude__": plain, "__main__": plain})
-        return st.one_of(plain, plain, pair)
+        pair = st.fixed_dictionaries({"__prelude__": plain, "__main__": plain},
+                                     optional={"__procfs__": st.sampled_from(MOVED_PROCFS)})
+        # the caller may have told psutil that procfs is mounted elsewhere
+        # (psutil.PROCFS_PATH, documented): same kernel files, other root
+        moved = st.fixed_dictionaries({"__main__": plain, "__procfs__": st.sampled_from(MOVED_PROCFS)})
+        return st.one_of(plain, plain, plain, pair, pair, moved)
 
     def _pair_run_case(self, case):
         from vlib import simk
 
         if not (isinstance(case, dict) and "__main__" in case):
             return self._plain_run_case(case)
-        pre = dict(case["__prelude__"])
-        pre.pop("allow_known", None)
+        root = case.get("__procfs__", "/proc")
+        simk.PROCFS_ROOT = root
+        where = "" if root == "/proc" else f"[PROCFS_PATH={root}] "
         try:
-            self._plain_run_case(pre)
-        except Violation as v:
-            raise Violation(v.clause, "[prelude part] " + str(v.detail)) from None
-        simk.RESET_MODE = "documented-only"
-        try:
-            res = self._plain_run_case(case["__main__"])
-        except Violation as v:
-            raise Violation(v.clause, "[after a prelude case] " + str(v.detail)) from None
+            if "__prelude__" in case:
+                pre = dict(case["__prelude__"])
+                pre.pop("allow_known", None)
+                try:
+                    self._plain_run_case(pre)
+                except Violation as v:
+                    raise Violation(v.clause, where + "[prelude part] " + str(v.detail)) from None
+                simk.RESET_MODE = "documented-only"
+            try:
+                res = self._plain_run_case(case["__main__"])
+            except Violation as v:
+                raise Violation(v.clause, where + ("[after a prelude case] " if "__prelude__" in case else "")
+                                + str(v.detail)) from None
         finally:
             simk.RESET_MODE = "full"
+            simk.PROCFS_ROOT = "/proc"
+        tags = (["after-prelude"] if "__prelude__" in case else []) + (["procfs-moved"] if where else [])
         labels = res.labels
         if isinstance(labels, dict):
             labels = dict(labels)
-            labels["after-prelude"] = 1
+            for t in tags:
+                labels[t] = 1
         else:
-            labels = list(labels) + ["after-prelude"]
+            labels = list(labels) + tags
         nt = res.nontrivial
         if isinstance(nt, str):
             nt = "P|" + nt
         elif nt:
             nt = ["P|" + x for x in nt]
         return Result(labels, nt, res.extra)
+
+
+MOVED_PROCFS = ("/host/proc", "/sim/procfs")
 
 
 class Stats:
